@@ -40,7 +40,30 @@ def specs(tier):
 
 def items(tier, seed):
     n = len(specs(tier))
-    return [{"lo": lo, "hi": min(n, lo + 40), "tier": tier} for lo in range(0, n, 40)]
+    return [{"lo": lo, "hi": min(n, lo + 40), "tier": tier} for lo in range(0, n, 40)] + [{"colliding": True, "tier": tier}]
+
+
+def colliding_specs():
+    """graphs that differ only in identifiers whose Python hashes coincide (hash(-1) == hash(-2), hash(n) == hash(n + 2**61 - 1)),
+    inside one graph and in consecutive graphs of one process: descriptors must not be confused with each other"""
+    out = []
+    P = 2 ** 61 - 1
+    for x, y in ((-1, -2), (0, P), (5, 5 + P), (-2, -1)):
+        # one reaction centre whose broken / formed descriptors differ only in the ligand x vs y
+        atoms = [(10, "C"), (x, "F"), (y, "F"), (11, "Cl"), (12, "Br"), (13, "H")]
+        bonds = [(10, x, "BROKEN"), (10, y, "FORMED"), (10, 11), (10, 12), (10, 13)]
+        out.append(U.mk(SCRG, atoms, bonds, achg={10: {"BROKEN": ("Tetrahedral", (10, x, 11, 12, 13), 1),
+                                                       "FORMED": ("Tetrahedral", (10, y, 11, 12, 13), 1)}}))
+        # two centres whose descriptors differ only in x vs y, and the same molecule written once with x and once with y
+        out.append(U.mk(SMG, [(x, "C"), (y, "C"), (20, "F"), (21, "Cl"), (22, "Br"), (23, "F"), (24, "Cl"), (25, "Br")],
+                        [(x, y), (x, 20), (x, 21), (x, 22), (y, 23), (y, 24), (y, 25)],
+                        astereo=[("Tetrahedral", (x, y, 20, 21, 22), 1), ("Tetrahedral", (y, x, 23, 24, 25), -1)]))
+        for z in (x, y):
+            out.append(U.mk(SMG, [(30, "C"), (z, "F"), (31, "Cl"), (32, "Br"), (33, "H")], [(30, z), (30, 31), (30, 32), (30, 33)],
+                            astereo=[("Tetrahedral", (30, z, 31, 32, 33), 1)]))
+            out.append(U.mk(SMG, [(40, "C"), (41, "C"), (z, "F"), (43, "H"), (44, "Cl"), (45, "H")],
+                            [(40, 41), (40, z), (40, 43), (41, 44), (41, 45)], bstereo=[("PlanarBond", (z, 43, 40, 41, 44, 45), 0)]))
+    return out
 
 
 def run_item(item):
@@ -48,9 +71,10 @@ def run_item(item):
 
     out = {"evals": 0, "distinct": 0, "outcomes": {}, "viol": [], "samples": []}
     oc = out["outcomes"]
-    for m0 in specs(item["tier"])[item["lo"]:item["hi"]]:
+    for m0 in (colliding_specs() if item.get("colliding") else specs(item["tier"])[item["lo"]:item["hi"]]):
         ids = list(m0.atoms)
-        for pname, pool in (("0..n", None), ("negative", NEGPOOL), ("huge", BIGPOOL)):
+        for pname, pool in ((("colliding-ids", None),) if item.get("colliding") else
+                            (("0..n", None), ("negative", NEGPOOL), ("huge", BIGPOOL))):
             if pool is not None and (not ids or len(ids) > len(pool)):
                 continue
             m = m0 if pool is None else m0.copy().relabel(dict(zip(ids, pool)))
